@@ -473,7 +473,7 @@ func crashLine(path string) string {
 	return crash + " | last " + lastCase
 }
 
-var frameRe = regexp.MustCompile(`(?m)^  ([^\s(]+)\(`)
+var frameRe = regexp.MustCompile(`(?m)^  (\S+)\(\)\s*$`)
 
 // raceKey de-duplicates race reports by the first function of each of the
 // two stacks (line numbers stripped).
